@@ -251,3 +251,29 @@ for _t in ('second', 'minute', 'hour', 'day'):
     GHOST['ct_%s_plus' % _t] = {0: "BOUND_DAYORD(a.y, a.m, a.d);"}
 
 GHOST['scale_add'] = {0: "REVEAL_MUL((Z)v);"}
+
+
+# --- day_difference: the two dates are reduced to their 400-year cycle; the ordinal of a date is the cycle ordinal plus 146097 per cycle ----
+def _dd_side(y, m, d):
+    e = "(int)(%s %% 400)" % y
+    return "\n".join([
+        "REVEAL_DAYORD(%s, %s, %s);" % (y, m, d),
+        use('ord_reduce', [y, m, d]),
+        use('I_anchor', [e, m, d]),
+        use('cong', ["(Z)(%s %% 400)" % y, "(Z)(%s)" % e, m, d]),
+        cut("DAYORD(%s, %s, %s) == (Z)ORD_I(%s, %s, %s) + (Z)146097 * (Z)(%s / 400)" % (y, m, d, e, m, d, y), "ordinal = cycle ordinal + 146097 per cycle"),
+    ])
+
+
+DD0 = "const year_t g_qa = y1 / 400;\nconst year_t g_qb = y2 / 400;\n" + _dd_side("y1", "m1", "d1") + "\n" + _dd_side("y2", "m2", "d2") + "\n" + \
+      cut("-292194 < ORD_I((int)(y1 % 400), m1, d1) - ORD_I((int)(y2 % 400), m2, d2) && ORD_I((int)(y1 % 400), m1, d1) - ORD_I((int)(y2 % 400), m2, d2) < 292194",
+          "two dates of the cycle window are less than two cycles apart") + "\n" + \
+      cut("-((Z)1 << 62) < (Z)400 * ((Z)g_qa - (Z)g_qb) && (Z)400 * ((Z)g_qa - (Z)g_qb) < ((Z)1 << 62)", "the cycle distance fits (from the representable result)")
+GHOST['day_difference'] = {0: DD0}
+HOOKS['day_difference'] = [
+    (r'diff_t c4_diff = \( y1 - a_c4_off \)', cut("(Z)c4_diff == (Z)400 * ((Z)g_qa - (Z)g_qb)", "c4_diff is 400 times the cycle distance"), 'after'),
+    (r'diff_t delta = ymd_ord \(', cut("(Z)delta == (Z)ORD_I((int)(y1 % 400), m1, d1) - (Z)ORD_I((int)(y2 % 400), m2, d2)", "delta is the distance inside the cycle window"), 'after'),
+    (r'return \( c4_diff / 400 \* 146097 \) \+ delta',
+     cut("(Z)c4_diff % 400 == 0 && (Z)(c4_diff / 400) * 146097 + (Z)delta == (Z)146097 * ((Z)g_qa - (Z)g_qb) + (Z)ORD_I((int)(y1 % 400), m1, d1) - (Z)ORD_I((int)(y2 % 400), m2, d2)",
+         "the adjusted sum is unchanged")),
+]
